@@ -2,7 +2,7 @@
    them; rglob reaches every entry below a real directory; hence every member
    is enumerated under its real path. *)
 From Coq Require Import Bool Arith Ascii String List Lia.
-From CBI Require Import Lib.Res Lib.Data Lib.C09_glob Model.C09 Spec.C09 Proofs.C09 Proofs.C09p.
+From CBI Require Import Lib.Res Lib.Data Lib.C09_glob Model.C09 Spec.C09 Proofs.C09p Proofs.C09.
 Import ListNotations.
 
 Definition plain (c : string) : bool := negb (String.eqb c ""%string || String.eqb c "."%string || String.eqb c ".."%string).
